@@ -36,6 +36,27 @@ def path(te: TermEval, text: str) -> RF:
     return te._rf(te.ev(node, {"decay": Opaque(("decay",))}))
 
 
+def _show_val(v) -> str:
+    if isinstance(v, Opaque) and isinstance(v.key, tuple) and v.key:
+        if v.key[0] == "attr" and len(v.key) == 3:
+            return f"{_show_val(Opaque(v.key[1]))}.{v.key[2]}"
+        if len(v.key) == 1:
+            return str(v.key[0])
+    return repr(v)
+
+
+def _show_cond(cond) -> str:
+    from ..terms import Rel, Tup
+
+    if isinstance(cond, Tup):
+        return " and ".join(_show_cond(c) for c in cond.items)
+    if isinstance(cond, Rel):
+        return f"{_show_val(cond.lhs)} {cond.op} {_show_val(cond.rhs)}"[:80]
+    if isinstance(cond, Opaque) and cond.key and cond.key[0] == "else-of":
+        return "otherwise"
+    return repr(cond)[:60]
+
+
 def extract_apps(te: TermEval, value, name: str) -> list[dict]:
     """All applications of ``name`` inside a product value, as keyword dicts."""
     out = []
@@ -88,13 +109,29 @@ def check_wigner_d(ctx: Check, tree: Tree) -> None:
 def check_cg(ctx: Check, tree: Tree) -> None:
     D.reset()
     te = decay_evaluator(tree)
+    te.fork = True  # every path of the function is judged separately
     fn = tree.func(f"{HEL}::formulate_isobar_cg_coefficients")
-    val = te.eval_function(fn, [Opaque(("transition",)), sym("node_id")])
+    res = te.eval_function(fn, [Opaque(("transition",)), sym("node_id")])
+    from ..terms import PW
+
+    paths = [(v, c) for v, c in res.branches] if isinstance(res, PW) else [(res, None)]
+    for val, cond in paths:
+        _check_cg_path(ctx, tree, te, fn, val, cond)
+
+
+def _check_cg_path(ctx: Check, tree: Tree, te: TermEval, fn, val, cond) -> None:
+    on = "" if cond is None else f" on the path `{_show_cond(cond)}`"
+    suffix = "" if cond is None else f"::path {_show_cond(cond)}"
     apps = extract_apps(te, val, "CG")
     if len(apps) != 2:
-        if len(apps) == 0:
+        if len(apps) == 0 and cond is None:
             raise AnalysisError("formulate_isobar_cg_coefficients returns no CG factor (shape outside the grammar)")
-        ctx.violation("R-TERM", f"{fn.qual}::roles", tree.loc(fn.node), f"formulate_isobar_cg_coefficients returns {len(apps)} distinct Clebsch-Gordan factor(s) instead of the two of the formula")
+        # a special case that returns fewer coefficients: CG(j1 m1; j2 m2 | 0 0) = (-1)^(j1-m1)/sqrt(2 j1+1),
+        # CG(L 0; S d | J d) != 1 in general - a factor may only be dropped where it is identically 1,
+        # i.e. never on a condition that leaves the spins of the coupled pair open
+        ctx.violation("R-TERM", f"{fn.qual}::roles{suffix}", tree.loc(fn.node),
+                      f"formulate_isobar_cg_coefficients returns {len(apps)} distinct Clebsch-Gordan factor(s) instead of the two of the formula{on}",
+                      "e.g. the spin-spin coefficient for S = 0 is (-1)^(s1-l1)/sqrt(2 s1+1), which alternates in sign with the helicity: dropping it changes the relative sign of the helicity amplitudes of a fermion pair")
         return
     delta = path(te, "decay.children[0].spin_projection") - path(te, "decay.children[1].spin_projection")
     ls = {
@@ -117,15 +154,15 @@ def check_cg(ctx: Check, tree: Tree) -> None:
         probs = [f"CG(L0;S d|J d): {p}" for p in matches(a, ls)] + [f"CG(s1 l1;s2 -l2|S d): {p}" for p in matches(b, ss)]
         if best is None or len(probs) < len(best):
             best = probs
-    ctx.verdict(not best, "R-TERM", f"{fn.qual}::roles", tree.loc(fn.node),
-                "canonical basis: CG(L,0;S,d|J,d) * CG(s1,l1;s2,-l2|S,d) with d = l1 - l2 of children[0], children[1]", best or None)
+    ctx.verdict(not best, "R-TERM", f"{fn.qual}::roles{suffix}", tree.loc(fn.node),
+                f"canonical basis{on}: CG(L,0;S,d|J,d) * CG(s1,l1;s2,-l2|S,d) with d = l1 - l2 of children[0], children[1]", best or None)
     # the product of exactly these two
     from ..terms import deep_atoms
 
     n_atoms = len([a for a in val.atoms() if te.is_app(a)])
     r = val.normalized()
     ok = n_atoms == 2 and r.d.is_const() and len(r.n.t) == 1 and list(r.n.t.values())[0] / r.d.const_value() == 1
-    ctx.verdict(ok, "R-TERM", f"{fn.qual}::product", tree.loc(fn.node), "the result is the plain product of the two coefficients")
+    ctx.verdict(ok, "R-TERM", f"{fn.qual}::product{suffix}", tree.loc(fn.node), "the result is the plain product of the two coefficients")
 
 
 # --------------------------------------------------------------------------- R-FOLD
